@@ -45,8 +45,21 @@ func xpcall(t *rt.Thread, c *rt.GoCont) (rt.Cont, error) {
 		return rt.Call(t, c.Arg(0), c.Etc(), res)
 	})
 	if err != nil {
+		errValue := rt.ErrorValue(err)
+		_, terminated := err.(rt.ContextTerminationError)
+		if rtErr, ok := rt.AsError(err); msgHandler != nil && !terminated && !(ok && rtErr.Handled()) {
+			// The error did not come out of a running continuation (e.g. the
+			// function to call is not callable), so the message handler has
+			// not seen it yet.
+			hres := rt.NewTerminationWith(c, 1, false)
+			if herr := rt.Call(t, c.Arg(1), []rt.Value{errValue}, hres); herr != nil {
+				errValue = rt.ErrorValue(herr)
+			} else {
+				errValue = hres.Get(0)
+			}
+		}
 		t.Push1(next, rt.BoolValue(false))
-		t.Push1(next, rt.ErrorValue(err))
+		t.Push1(next, errValue)
 	} else {
 		t.Push1(next, rt.BoolValue(true))
 		t.Push(next, res.Etc()...)
